@@ -9,7 +9,8 @@ CONSTANTS
   SettleRuns = 4
   EnvAllowed = {"spokevanish", "hubvanish", "hubcompact", "foreign", "foreignraw"}
   Chunks = 3
-  PutAllowed = {"dropBefore", "dropAfter", "short", "shortDrop", "corrupt", "backpressure", "idxfail"}
+  PutAllowed = {"dropBefore", "dropAfter", "short", "shortDrop", "corrupt", "backpressure", "idxfail", "cancel", "cancelAfter"}
+  MaxRestart = 0
   MinRuns = 0
   Emit = FALSE
 VIEW View
